@@ -195,7 +195,7 @@ pub fn build_big(c: &BigCase) -> Scenario {
         stamps: c.stamps,
         names: if c.outnames { Names::Outputs } else { Names::JobIds },
     };
-    let sched = Sched { choices: vec![], max_running: 255, ack_mode: 0, decl: vec![] };
+    let sched = Sched { choices: vec![], max_running: 255, ack_mode: 0, decl: vec![], exact: false };
     let plain = Plan { fail: 0, fail_mode: 0, abort: None, sched: sched.clone(), alts: vec![] };
     let mut steps = vec![Step { edits: vec![], plan: plain.clone() }];
     let first_output = (0..n).find(|i| slots[*i].kind == Kind::Output);
